@@ -180,6 +180,10 @@ type NRF struct {
 	Z int
 }
 
+type Ret3 struct{ A int }
+
+func (r Ret3) Three() (int, string, int) { return r.A, "abcdefghijklmnopqrstuvwxyz", 7 }
+
 type Getter interface{ Get() int }
 type I8 int8
 
